@@ -154,6 +154,9 @@ var backendGarbage = map[string][]string{
 	"*": {
 		"-MOVED 1\r\n", "-MOVED\r\n", "-MOVED \r\n", "-MOVED  \r\n", "-ASK 1\r\n", "-ASK 1 \r\n", "-moved 12 \r\n", "-MOVED 1 nohost\r\n", "-MOVED 1 10.0.0.1:70000\r\n",
 		"-MOVED x y z w\r\n", "-ASK 99999 :\r\n", "-MOVED 1 :7000\r\n", "-CLUSTERDOWN\r\n", "-CLUSTERDOWN \r\n", "-clusterdown x\r\n", "-\r\n", "- \r\n", "-ERR\r\n",
+		// letters that only Unicode case folding maps to S and K (U+017F, U+212A), mixed case, odd spacing
+		"-A\u017fk 1 10.0.0.1:7000\r\n", "-AS\u212a 1 10.0.0.1:7000\r\n", "-a\u017f\u212a 2 10.0.0.2:7000\r\n", "-AsK 1 10.0.0.1:7000\r\n", "-Moved 1 10.0.0.1:7000\r\n", "-CLU\u017fTERDOWN x\r\n",
+		"-MOVED 1 10.0.0.1:7000 extra words\r\n", "-ASK  1  10.0.0.1:7000\r\n", "-MOVED\t1\t10.0.0.1:7000\r\n",
 		"$-1\r\n", "*-1\r\n", "*0\r\n", ":x\r\n", "$abc\r\n", "$5\r\nab\r\n", "+OK\n", "?what\r\n", "*2\r\n$1\r\na\r\n", "$536870913\r\n", "*1048577\r\n",
 	},
 	"scan": {
